@@ -10,7 +10,7 @@ import io
 import itertools
 import random
 
-from vf.runner import use_repo, ToolError
+from vf.runner import use_repo, ToolError, jsonable
 from vf.refproto import codec as ref
 from vf.refproto import framing
 from vf.refproto import releases as rel
@@ -30,12 +30,16 @@ RULE = ('Every release protocol of the README (30) x every core packet that '
         'string of status response, login disconnect, play disconnect and '
         'clientbound chat, one vector per LONG string (other fields at base '
         'values): multi-byte characters whose UTF-8 length lies at and '
-        'across 32767 bytes (32766/32767/32768/32769 bytes from 3-byte and '
-        '2-byte characters, a JSON-shaped one, 32767 three-byte characters '
-        '= 98301 bytes; thorough adds 4-byte characters and more) while the '
+        'across 32767 bytes (32767, 32768 and 32769 bytes of 3-byte '
+        'characters, 32768 bytes of 2-byte characters, a JSON text of '
+        '32771 bytes, 32767 three-byte characters = 98301 bytes; thorough '
+        'adds 32766 bytes, 4-byte characters, 2-byte x32767, ASCII x32767 '
+        'and a 1/2/3-byte mix) while the '
         'character count stays <= 32767, the documented limit of those '
-        'fields; serverbound chat goes up to its documented 100 (before '
-        '1.11) / 256 characters of 3-byte characters and no further.  '
+        'fields in every release; both directions: decoding the reference '
+        'bytes and comparing the written bytes with them.  Serverbound '
+        'chat goes up to its documented 100 (before 1.11) / 256 characters '
+        'of 3-byte characters and no further.  '
         'Each vector is '
         'executed three ways on the real classes: (a) Packet.write bytes == '
         'reference frame bytes, (b) Packet.read of the reference payload '
@@ -56,10 +60,12 @@ RULE = ('Every release protocol of the README (30) x every core packet that '
         'ids are wire patterns: for VarInt releases (47-338) the VarInt '
         'alphabet as unsigned 32-bit patterns plus 0x7FFFFFFF, 0x80000000, '
         '0x80000001, 0xFFFFFF7F, 0xFFFFFFFF, 0xDEADBEEF; for Long releases '
-        'the Long alphabet with the signed 64-bit boundaries; the same echo '
-        'teleport_id of clientbound player-position-and-look -> serverbound '
-        'teleport confirm from 1.9 on.  How pyCraft represents the id in '
-        'between (signed, unsigned) is not looked at.  '
+        'the Long alphabet plus 2^63-1, 2^63-2, -2^63, -2^63+1, -1, '
+        '0x80000000, 0xFFFFFFFF, 0xDEADBEEF, 0xDEADBEEFDEADBEEF; the same '
+        'echo for teleport_id of clientbound player-position-and-look -> '
+        'serverbound teleport confirm from 1.9 on (VarInt patterns).  How '
+        'pyCraft represents the id in between (signed, unsigned) is not '
+        'looked at.  '
         'All of (a)-(e) are executed in three context regimes, each judged '
         'against the same reference: FRESH (a new ConnectionContext per '
         'case); RE-ASSIGNED (one ConnectionContext object whose '
@@ -1304,8 +1310,16 @@ def replay(ctx, case):
     if hist:
         # an effect of earlier uses of the context needs the walk it was
         # seen in (same slice of vectors, same tier and seed)
-        history_walk(ctx, hist['label'], hist['walk'], hist['tier'],
+        sub = ctx.fork()
+        history_walk(sub, hist['label'], hist['walk'], hist['tier'],
                      hist['seed'])
+        want = jsonable(dict((f, case.get(f)) for f in
+                             ('version', 'name', 'kind', 'echo', 'wire')))
+        for key in sorted(sub.violations):      # only the case asked for
+            c = sub.violations[key]['case']
+            if any(c.get(f) != want[f] for f in want):
+                del sub.violations[key]
+        ctx.absorb(sub)
         return
     version, name = case['version'], case['name']
     if case.get('kind') == 'absent':
